@@ -183,6 +183,12 @@ func (v *Env) evalForall(guard *Term, x *SExpr) *Term {
 	for k, val := range v.vars {
 		snap.vars[k] = val
 	}
+	// the hypothesis speaks about the state it was assumed in: instances are built lazily, so
+	// freeze that state (the live one keeps changing as execution goes on)
+	snap.cur = v.cur.clone()
+	if v.old != nil {
+		snap.old = v.old.clone()
+	}
 	pc := v.cur.pc
 	q := &QHyp{at: len(v.e.ctx.hyps), idx: len(v.e.ctx.qhyps), nvars: len(names), cache: map[string]*Term{}, desc: x.String(), pc: pc}
 	for _, name := range names {
@@ -1302,7 +1308,7 @@ func (v *Env) unchangedExcept(s SliceV) *Term {
 		// only memory that existed in the old state is constrained: what was allocated in
 		// between is new, not "changed"
 		body := func(a *Term) *Term {
-			ex := Or(Lt(a, old.allocTop), Le(ConstI(staticBase, Ref), a))
+			ex := Or(Lt(a, old.allocTop), And(Le(ConstI(staticBase, Ref), a), Lt(a, ConstI(staticBase*2, Ref))))
 			return Imp(And(ex, Or(Lt(a, lo), Le(hi, a))), Eq(e.ctx.mc.Read(mc, a), e.ctx.mc.Read(mo, a)))
 		}
 		if v.polarity == polProve {
